@@ -6,6 +6,7 @@ import (
 	"math/rand"
 	"strings"
 	"sync"
+	"time"
 
 	"github.com/siglens/siglens/pkg/alerts/alertsHandler"
 	"github.com/siglens/siglens/pkg/alerts/alertutils"
@@ -21,7 +22,7 @@ import (
 // The alert is created through ProcessCreateAlertRequest (own org id per case), so the first job object is the
 // one the product creates.  Every evaluation is made with the *AlertDetails captured by the cron job
 // (alertsHandler.VerifJobAlert), i.e. with whatever stale copy the product keeps; the cron scheduler itself never
-// fires (jobs wait for their first interval, the scheduler is stopped after every request that starts it).
+// fires (jobs wait ≥ 60 s for their first run; a case lasts milliseconds and removes its jobs).
 // Time and transport as in suite "alert".
 
 func init() {
@@ -250,7 +251,17 @@ func ajPost(h func(*fasthttp.RequestCtx), body []byte) int {
 	return ctx.Response.StatusCode()
 }
 
+// the cron jobs of a case wait ≥ 60 s for their first run; a case that took anywhere near that long cannot be trusted
 func execAlertJob(line string) Result {
+	t0 := time.Now()
+	res := execAlertJobLine(line)
+	if time.Since(t0) > 45*time.Second {
+		return Result{Out: "harness-error:case-took-too-long"}
+	}
+	return res
+}
+
+func execAlertJobLine(line string) Result {
 	f := strings.Fields(line)
 	if len(f) >= 1 && f[0] == "ajs" {
 		return execAlertSet(f[1:])
